@@ -71,6 +71,9 @@ func (i *interpreter) spawn(fr *frame, pos token.Pos, fn value, args []value) {
 	th := i.newThread()
 	parent := i.cur
 	go i.threadMain(th, pos, fn, args)
+	if i.cfg.SpawnDeferred {
+		return // the harness decides when the goroutine runs (operation-granular interleaving)
+	}
 	if i.cfg.Interleave && i.ex.Choose(2, "spawn-order") == 1 {
 		return // parent continues; child stays runnable
 	}
@@ -150,6 +153,13 @@ func (i *interpreter) pick(cur *thread) *thread {
 	}
 	if len(cand) == 0 {
 		return nil
+	}
+	if i.cfg.SpawnDeferred {
+		for _, th := range cand {
+			if th.id == 0 {
+				return th // deferred mode: control returns to the harness thread whenever it can run
+			}
+		}
 	}
 	if i.cfg.Interleave && len(cand) > 1 {
 		return cand[i.ex.Choose(len(cand), "sched")]
